@@ -173,6 +173,32 @@ def rule_clock(program, ctx, prop=P, rid="C18.clock"):
                     ctx.bad(finding_at(prop, rid, c, f"RateLimiter.{name} reads `{full}` directly instead of the limiter's monotonic _timestamp()"))
 
 
+def rule_key(program, ctx, prop=P, rid="C18.key"):
+    ctx.rule(
+        rid,
+        "one history per peer address: RateLimiter.is_limited keys the per-IP history by `ip_address(client_address).packed` of the address it was given - the parameter is "
+        "not re-bound or cut beforehand (a host:port splitter that takes a bare IPv6 address' last group for a port files two peers under one history: the second is "
+        "refused on its first message; an address it mangles beyond parsing raises and drops the connection)",
+        floor=1,
+    )
+    fn = program.cls("nostr_relay.rate_limiter:RateLimiter").methods.get("is_limited")
+    if fn is None:
+        raise AnalysisError("RateLimiter.is_limited not found")
+    p = fn.args.args[1].arg
+    reb = [s_ for s_ in stores_of(fn, p)]
+    for s_ in reb:
+        ctx.bad(finding_at(prop, rid, s_, f"is_limited re-binds its address parameter (`{ast.unparse(s_)[:60]}`) before it selects the history: distinct peers can share one "
+                           "history, and the specific-address rule lookup no longer sees the address the server reported"))
+    keys = [c for c in ast.walk(fn) if isinstance(c, ast.Call) and call_name(c).split(".")[-1] == "ip_address"]
+    for c in keys:
+        if c.args and dotted(c.args[0]) == p:
+            ctx.ok(rid, c, f"history key = ip_address({p}).packed")
+        else:
+            ctx.bad(finding_at(prop, rid, c, f"the history key is derived from `{ast.unparse(c.args[0])[:40] if c.args else ''}`, not from the address parameter itself"))
+    if not keys:
+        ctx.bad(finding_func(prop, rid, fn, "is_limited no longer keys the history by ip_address(<address>)", text="def is_limited(...) :: key"))
+
+
 def rule_record(program, ctx):
     rid = ctx.rule(
         "C18.record",
@@ -509,6 +535,7 @@ def run(program, ctx):
 
     rule_awaited(program, ctx, P, ANCHORS)
     rule_consulted(program, ctx)
+    rule_key(program, ctx)
     rule_clock(program, ctx)
     rule_counted_once(program, ctx)
     rule_record(program, ctx)
